@@ -153,6 +153,22 @@ func runC14(c *Ctx) {
 		okId := false
 		for _, w := range FieldWrites([]*ssa.Function{cc}, p.Field(hsPkg+":Result.Identity")) {
 			okId = IsLoadOfField(w.Val, idF)
+			if !okId {
+				// handed back by the verifying helper (new since the anchor snapshot)
+				vals, unk := Origins(w.Val)
+				n := 0
+				okId = !unk
+				for _, o := range vals {
+					if IsNilConst(o) {
+						continue // the helper's error returns
+					}
+					n++
+					if !IsLoadOfField(o, idF) {
+						okId = false
+					}
+				}
+				okId = okId && n > 0
+			}
 		}
 		c.Check(okId, "C14.2-credential-check", FuncName(cc)+"|Result.Identity = verified payload identity", p.Pos(cc.Pos()), "the identity attached to the connection is the Identity field of the payload whose signature was verified")
 		unm := p.PkgFunc("util/crypto:UnmarshalEd25519PublicKeyProto")
@@ -453,6 +469,9 @@ func runC14(c *Ctx) {
 	// ---- C14.5 bounded wait
 	for _, name := range []string{"OutgoingHandshake", "IncomingHandshake", "OutgoingProtoHandshake", "IncomingProtoHandshake"} {
 		fn := h(name)
+		// (the wait may sit in a driver shared by both directions, new since the anchor snapshot)
+		fn, _ = descendTo(fn, calleeMethod("context", "Done"))
+		c.Fn(FuncName(fn))
 		ok := false
 		Instrs(fn, func(in ssa.Instruction) {
 			sel, isSel := in.(*ssa.Select)
